@@ -264,6 +264,23 @@ func (s *Sched) Release(t *Task) {
 	synctest.Wait()
 }
 
+// Held returns the task currently kept off the schedule by Hold (nil if none);
+// EndHold gives the pause up. For harnesses with their own stepping loop.
+func (s *Sched) Held() *Task {
+	s.mu.Lock()
+	defer s.mu.Unlock()
+	if s.holdDone {
+		return nil
+	}
+	return s.holding
+}
+
+func (s *Sched) EndHold() {
+	s.mu.Lock()
+	s.holdDone = true
+	s.mu.Unlock()
+}
+
 // StepAny releases one enabled task chosen by the tape; false if none is enabled.
 func (s *Sched) StepAny() bool {
 	en := s.Enabled()
